@@ -1,0 +1,105 @@
+//go:build verif
+
+// Contracts for the verifier in /verif (comment-only; adds no code).
+// Syntax: DESIGN.md section 2.2.  Labels in [brackets] name the obligations,
+// {Cxx} lists the properties a clause serves.
+package interpreter
+
+//@ func (*programState).pushSender
+//@   requires [nonnil] st != nil && monetary != nil
+//@   ensures [zero-dropped] {C02} val(monetary) == 0 ==> st.Senders == old(st.Senders)
+//@   ensures [appended] {C02,C04} val(monetary) != 0 ==> len(st.Senders) == old(len(st.Senders)) + 1
+//@   ensures [appended-last] {C02,C04} val(monetary) != 0 ==> st.Senders[old(len(st.Senders))].Name == name && st.Senders[old(len(st.Senders))].Monetary == monetary
+//@   ensures [prefix-kept] {C02,C04} val(monetary) != 0 ==> forall(j, 0, old(len(st.Senders)), st.Senders[j] == old(st.Senders[j]))
+//@   ensures [amounts-untouched] {C02,C11} heapsame(bigint)
+//@   modifies st.Senders
+
+//@ func (*programState).pushReceiver
+//@   requires [nonnil] st != nil && monetary != nil
+//@   ensures [zero-dropped] {C02} val(monetary) == 0 ==> st.Receivers == old(st.Receivers)
+//@   ensures [appended] {C02,C05} val(monetary) != 0 ==> len(st.Receivers) == old(len(st.Receivers)) + 1
+//@   ensures [appended-last] {C02,C05} val(monetary) != 0 ==> st.Receivers[old(len(st.Receivers))].Name == name && st.Receivers[old(len(st.Receivers))].Monetary == monetary
+//@   ensures [prefix-kept] {C02,C05} val(monetary) != 0 ==> forall(j, 0, old(len(st.Receivers)), st.Receivers[j] == old(st.Receivers[j]))
+//@   ensures [amounts-untouched] {C02,C11} heapsame(bigint)
+//@   modifies st.Receivers
+
+// ---------------------------------------------------------------- expressions
+
+//@ nullable VarDeclaration.Origin SourceOverdraft.Bounded
+//@ wfexclude ValueExpr SourceAccount DestinationAccount
+//@ wfalso BinaryInfix: self.Operator == "+" || self.Operator == "-"
+
+// evaluateExpr is verified to write nothing and (effect scan) to read only the
+// expression and st.ParsedVars, so its result is the spec function evalOf / evalErr.
+// data-structure invariant of programState (established by RunProgram / parseVars)
+//@ spec varsOk(st) = st != nil && st.ParsedVars != nil && forallstr(k, has(st.ParsedVars, k) ==> st.ParsedVars[k] != nil)
+
+//@ func (*programState).evaluateExpr
+//@   functional
+//@   requires [wf] wf(expr)
+//@   requires [state] varsOk(st)
+//@   ensures [result-xor-err] {C12} (err == nil) != (result == nil)
+//@   modifies nothing
+
+// ---------------------------------------------------------------- balances cache (abstract view)
+
+// bal: the balance a statement sees (0 when the pair is not in the cache); known: presence in the cache
+//@ spec known(st, a, c) = has(st.CachedBalances, a) && has(st.CachedBalances[a], c)
+//@ spec bal(st, a, c) = ite(has(st.CachedBalances, a) && has(st.CachedBalances[a], c), val(st.CachedBalances[a][c]), 0)
+//@ spec cacheOk(st) = st != nil && st.CachedBalances != nil && cacheCells(st) && cacheDistinct(st)
+//@ spec cacheCells(st) = forallstr(a, has(st.CachedBalances, a) ==> st.CachedBalances[a] != nil && forallstr(c, has(st.CachedBalances[a], c) ==> st.CachedBalances[a][c] != nil))
+// every account has its own map of assets (the cache owns them: they are created by the interpreter)
+//@ spec cacheDistinct(st) = forallstr(a, forallstr(b, has(st.CachedBalances, a) && has(st.CachedBalances, b) && a != b ==> st.CachedBalances[a] != st.CachedBalances[b]))
+//@ spec sendersOk(st) = forall(j, 0, len(st.Senders), st.Senders[j].Monetary != nil)
+// amount already queued from account a by the statement being executed
+//@ spec pulled(st, a) = sumMonBy(st.Senders, len(st.Senders), a)
+
+//@ func (*programState).getCachedBalance
+//@   requires [cache] cacheOk(s)
+//@   ensures [cell] {C10} result != nil && known(s, account, asset) && s.CachedBalances[account][asset] == result
+//@   ensures [value] {C01,C04,C10} val(result) == old(bal(s, account, asset))
+//@   ensures [default-fresh] {C11} !old(known(s, account, asset)) ==> fresh(ref(result))
+//@   ensures [view-unchanged] {C01,C09,C10} forallstr(a, forallstr(c, bal(s, a, c) == old(bal(s, a, c))))
+//@   ensures [known-grows] {C10} forallstr(a, forallstr(c, old(known(s, a, c)) ==> known(s, a, c)))
+//@   ensures [cache-ok] cacheOk(s)
+//@   ensures [amounts-untouched] {C11} heapsame(bigint)
+//@   modifies entries(s.CachedBalances), allentries("map[string]*math/big.Int")
+
+//@ func (*programState).alreadySent
+//@   requires [state] st != nil && sendersOk(st)
+//@   ensures [sum] {C01,C04} result != nil && fresh(ref(result)) && val(result) == pulled(st, account)
+//@   ensures [amounts-untouched] {C11} heapsame(bigint)
+//@   modifies nothing
+//@   loop 1
+//@     invariant [total] total != nil && fresh(ref(total))
+//@     invariant [noalias] forall(j, 0, len(st.Senders), st.Senders[j].Monetary != total)
+//@     invariant [sum] val(total) == sumMonBy(st.Senders, iter, account)
+//@     invariant [range] 0 <= iter && iter <= len(st.Senders)
+
+// ---------------------------------------------------------------- sources: leaves
+
+//@ spec stateOk(st) = varsOk(st) && cacheOk(st) && sendersOk(st)
+
+// The account leaf of a fixed-amount draw.  B = balance seen by the statement, P = amount
+// this statement already queued from the same account:
+//   bounded (overdraft != nil, not @world):  min(amount, max(0, B + overdraft - P))
+//   @world / unbounded overdraft:            amount
+//@ func (*programState).trySendingToAccount
+//@   requires [wf] wf(accountLiteral) && amount != nil && val(amount) >= 0
+//@   requires [state] stateOk(s)
+//@   let v = evalOf(s, accountLiteral)
+//@   let acc = as(v, AccountAddress)
+//@   ensures [error-iff] {C12} (err != nil) == (evalErr(s, accountLiteral) != nil || !typeis(v, AccountAddress))
+//@   ensures [error-kind] {C12} err != nil && evalErr(s, accountLiteral) == nil ==> typeis(err, TypeError)
+//@   ensures [error-atomic] {C03,C12} err != nil ==> result == nil && s.Senders == old(s.Senders)
+//@   ensures [unbounded] {C04} err == nil && (acc == "world" || overdraft == nil) ==> val(result) == val(amount)
+//@   ensures [greedy-leaf] {C01,C04} err == nil && acc != "world" && overdraft != nil ==> val(result) == min(val(amount), max(0, old(bal(s, acc, s.CurrentAsset)) + val(overdraft) - old(pulled(s, acc))))
+//@   ensures [range] {C02,C03} err == nil ==> result != nil && 0 <= val(result) && val(result) <= val(amount)
+//@   ensures [fresh] {C05,C11} err == nil ==> fresh(ref(result))
+//@   ensures [pushed] {C02,C04} err == nil && val(result) != 0 ==> len(s.Senders) == old(len(s.Senders)) + 1 && s.Senders[old(len(s.Senders))].Name == acc && s.Senders[old(len(s.Senders))].Monetary == result
+//@   ensures [prefix-kept] {C04} err == nil ==> len(s.Senders) >= old(len(s.Senders)) && forall(j, 0, old(len(s.Senders)), s.Senders[j] == old(s.Senders[j]))
+//@   ensures [not-pushed] {C02} err == nil && val(result) == 0 ==> s.Senders == old(s.Senders)
+//@   ensures [view-unchanged] {C01,C09} forallstr(a, forallstr(c, bal(s, a, c) == old(bal(s, a, c))))
+//@   ensures [state-ok] stateOk(s)
+//@   ensures [amounts-untouched] {C11} heapsame(bigint)
+//@   modifies s.Senders, entries(s.CachedBalances), allentries("map[string]*math/big.Int")
